@@ -530,13 +530,33 @@ class Ctx:
             fn["_guards"] = g
         return g
 
-    def find_guard(self, key, ops, lhs=(), rhs=(), any_side=(), cond=None, strict_ops=True, cond_atoms=None):
+    def value_guards(self, key):
+        """Comparisons whose result is used as a value (the body of `|h| h > height`, `let ok = a == b;`): pseudo-switches without targets."""
+        fn = self.F.fns[key]
+        g = fn.get("_vguards")
+        if g is None:
+            g = []
+            ex = Exprs(fn)
+            live = live_blocks(fn)
+            for bi, b in enumerate(fn["blocks"]):
+                if b["cleanup"] or bi not in live:
+                    continue
+                for st in b["st"]:
+                    if st["k"] == "assign" and st["rv"]["r"] == "bin" and st["rv"]["op"] in NEGATE:
+                        g.append((bi, ex.rvalue(st["rv"], 0, ()), [("0", -1)], -1))
+                t = b["term"]
+                if t["k"] == "call" and any(short(x, 2) in CMP_CALL for x in callee_names(t)):
+                    g.append((bi, ex.call(t, 0, ()), [("0", -1)], -1))
+            fn["_vguards"] = g
+        return g
+
+    def find_guard(self, key, ops, lhs=(), rhs=(), any_side=(), cond=None, strict_ops=True, cond_atoms=None, values=False):
         """Switch blocks of `key` whose condition is a comparison with op in ops (after normalising Not),
         lhs atoms ⊇ lhs, rhs atoms ⊇ rhs (sides may be swapped with the operator mirrored), or, with
         cond=regex, whose rendered condition matches. Returns [(block, true_target, false_target, text)]"""
         fn = self.F.fns[key]
         out = []
-        for bi, e, arms, els in self.guards(key):
+        for bi, e, arms, els in (list(self.guards(key)) + (self.value_guards(key) if values else [])):
             am = dict(arms)
             # bool switch: arm "0" is false
             if cond_atoms is not None:
@@ -715,10 +735,11 @@ class Ctx:
                                 nxt.append(cl)
                 frontier = nxt
             for cl in sorted(seen_cl):
-                hits = self.find_guard(cl, ops, relax(lhs), relax(rhs), relax(any_side), None, strict_ops=strict_ops)
+                hits = self.find_guard(cl, ops, relax(lhs), relax(rhs), relax(any_side), None, strict_ops=strict_ops, values=True)
                 if not hits and lhs and rhs:
                     # one operand may reach the closure through the adaptor chain (`filter_map(..).find(|h| h > height)`)
-                    hits = self.find_guard(cl, ops, (), relax(rhs), relax(any_side), None, strict_ops=False) or self.find_guard(cl, ops, relax(lhs), (), relax(any_side), None, strict_ops=False)
+                    hits = self.find_guard(cl, ops, (), relax(rhs), relax(any_side), None, strict_ops=False, values=True) or \
+                        self.find_guard(cl, ops, relax(lhs), (), relax(any_side), None, strict_ops=False, values=True)
                 for (bi, t_true, t_false, txt) in hits:
                     good.append((None, None, None, "%s [in closure %s]" % (txt, short(cl, 2))))
             if len(good) >= min_guards:
